@@ -591,6 +591,13 @@ func TestVerifC33(t *testing.T) {
 			Stage string `json:"stage"`
 		}
 		ev.ReplayCase(&probe)
+		if probe.Stage == "roles" {
+			var rc c33RoleCase
+			ev.ReplayCase(&rc)
+			c33RunRoles(r, &rc, &c33RoleStats{})
+			r.Finish(false)
+			return
+		}
 		if probe.Stage == "sched" {
 			var sc c33SchedCase
 			ev.ReplayCase(&sc)
@@ -608,7 +615,7 @@ func TestVerifC33(t *testing.T) {
 	deepDepth := r.Pick(4, 5)
 	smallDepth := r.Pick(6, 8)
 	allCfgDepth := r.Pick(1, 2)
-	r.Rule(fmt.Sprintf("node S with connected peers P1..P3 (role in {none,seed,root,root+seed}, connection type in {none,parent,friend,other}); packets: src in {P1,P2,X(not connected),S} x dest in {any,root,seed,peer} x ttl in {0,1,2} x 2 payloads (96); event = peer Pi hands packet k to onPacket (288). (1) all 4096 role/connection-type configurations x roles of S itself (quick: none, root; thorough: all 4): BFS to depth 1, and to depth %d with S=none; (2) %d representative configurations: BFS to depth %d (thorough: the first two to depth 6) with the production pool (20x500); (3) pool 2x2 and 3x2 with 8 flooded + 2 one-hop packets and 2 senders: BFS to depth %d (evictions and re-delivery after eviction are reached). (4) scheduler tier (lib/explore, network/pool.go on the vsync shim): 2-3 managed threads = receive routines of different peers hand the SAME flooded packet (and, with pools 2x2 / 3x2 and a preloaded packet, two different packets across a bucket rotation) to the real onPacket, and to PacketPool.Put directly; all interleavings of the pool's lock operations up to preemption bound 2 (quick) / 3 (thorough); the callback / Put==true must happen exactly once per packet and a sequential hand-in afterwards must be refused. States are identified by the canonical content of the real PacketPool (+ the model's retention bookkeeping) and re-created by replaying the shortest history on fresh real objects; every transition is checked. A transition is non-trivial if the sender has a determined connection type; distinct = (sender role, sender connection type, sender, packet, model verdict reason, pool geometry).", allCfgDepth, len(c33DeepConfigs(r.Thorough())), deepDepth, smallDepth))
+	r.Rule(fmt.Sprintf("node S with connected peers P1..P3 (role in {none,seed,root,root+seed}, connection type in {none,parent,friend,other}); packets: src in {P1,P2,X(not connected),S} x dest in {any,root,seed,peer} x ttl in {0,1,2} x 2 payloads (96); event = peer Pi hands packet k to onPacket (288). (1) all 4096 role/connection-type configurations x roles of S itself (quick: none, root; thorough: all 4): BFS to depth 1, and to depth %d with S=none; (2) %d representative configurations: BFS to depth %d (thorough: the first two to depth 6) with the production pool (20x500); (3) pool 2x2 and 3x2 with 8 flooded + 2 one-hop packets and 2 senders: BFS to depth %d (evictions and re-delivery after eviction are reached). (4) scheduler tier (lib/explore, network/pool.go on the vsync shim): 2-3 managed threads = receive routines of different peers hand the SAME flooded packet (and, with pools 2x2 / 3x2 and a preloaded packet, two different packets across a bucket rotation) to the real onPacket, and to PacketPool.Put directly; all interleavings of the pool's lock operations up to preemption bound 2 (quick) / 3 (thorough); the callback / Put==true must happen exactly once per packet and a sequential hand-in afterwards must be refused. (5) role histories: on a real newPeerToPeer with three connected peers every sequence of length <= 2 (quick) / 3 (thorough) of validator sets over all 8 subsets of {P1,P2,P3} (x S itself in/out of the sets) is pushed through the real manager.SetRole -> PeerIDSet.ClearAndAdd -> onAllowedPeerIDSetUpdate path; after every step manager.HasRole and each peer's p2pRoleRoot flag must equal membership in the set passed LAST, and the whole 96-packet grid is handed in by every peer against the model with the roles of that current set. States are identified by the canonical content of the real PacketPool (+ the model's retention bookkeeping) and re-created by replaying the shortest history on fresh real objects; every transition is checked. A transition is non-trivial if the sender has a determined connection type; distinct = (sender role, sender connection type, sender, packet, model verdict reason, pool geometry).", allCfgDepth, len(c33DeepConfigs(r.Thorough())), deepDepth, smallDepth))
 	r.Assume("a packet's identity for the model is (src,dest,ttl,payload); the implementation's identity is its FNV hash — distinctness of the hashes of the 96 packets is asserted",
 		"pool retention guaranteed by the geometry: a delivered flooded packet is remembered at least until (buckets-1)*bucketLen newer ones were delivered; beyond that re-delivery is allowed",
 		"relayed flooded packets (sender != src) carry no verifiable origin; as in the property statement only originator broadcasts are subject to the role check",
@@ -703,6 +710,11 @@ func TestVerifC33(t *testing.T) {
 
 	// (4) scheduler tier: concurrent receive routines, all interleavings inside the preemption bound
 	if !c33SchedTier(r) {
+		exhaustive = false
+	}
+
+	// (5) role histories through manager.SetRole / PeerIDSet.ClearAndAdd / onAllowedPeerIDSetUpdate
+	if !c33RolesTier(r) {
 		exhaustive = false
 	}
 
